@@ -485,7 +485,7 @@ def retag(qp, C26, gen, spec, name, mech, ms):
     if name == "default.mixed" and "MatrixUndefinedError" in mech and any(s["t"] in ("basisemb", "basis", "prep", "ampemb") for s in spec["ops"][1:]):
         return "default.mixed:mid-circuit-state-prep-kept"
     if name == "default.clifford":
-        if "SX" in gen.spec_kinds(plain):
+        if "SX" in gen.spec_kinds(plain) and "ValueError" in mech:
             return "default.clifford:stim-gate-name:SX"
         if "probs" in mech:
             return "default.clifford:probs-wire-order"
